@@ -127,7 +127,7 @@ impl MultiPeerBackend for SubSocketBackend {
 
         let conn = next_conn();
         let registered =
-            crate::backend::register(&self.peers, peer_id, Peer::new(conn, send_queue)).await;
+            crate::backend::register(&self.peers, peer_id, Peer::new(conn, send_queue));
         match &self.fair_queue_inner {
             None => {}
             Some(inner) => {
@@ -197,11 +197,10 @@ impl SubSocket {
         let mut peers = Vec::new();
         self.backend
             .peers
-            .iter_async(|peer_id, peer| {
+            .iter_sync(|peer_id, peer| {
                 peers.push((peer_id.clone(), peer.clone()));
                 true
-            })
-            .await;
+            });
         // A failure on one peer's connection must not keep the other peers from being told.
         let mut first_error = None;
 
